@@ -659,3 +659,15 @@ V("BD1-final-chunk-size-by-modulo", "C04", "BD1",
 V("BD1-final-chunk-size-modulo-or", "C04", "BD1",
   ("reader.py", "                if segment.final_chunk_lengths_override is None:\n                    final_chunk_size = chunk_size\n                else:\n                    final_chunk_size = segment.final_chunk_lengths_override.get(channel_path, 0)\n",
    "                final_chunk_size = ((segment_end_index - segment_start_index) % chunk_size) or chunk_size\n"))
+_ST_OLD = ("    scaling_status = properties.get(\"NI_Scaling_Status\", \"unscaled\")\n    if scaling_status == \"scaled\":\n"
+           "        # Data is written with scaling already applied\n        return None\n\n")
+_GS_OLD = ("    scalings = (\n        _get_channel_scaling(p)\n        for p in [channel_properties, group_properties, file_properties])\n"
+           "    try:\n        return next(s for s in scalings if s is not None)\n    except StopIteration:\n        return None\n")
+V("ST1-status-of-the-channel-only", "C13", "ST1",
+  ("scaling.py", _ST_OLD, ""),
+  ("scaling.py", _GS_OLD, "    if channel_properties.get(\"NI_Scaling_Status\", \"unscaled\") == \"scaled\":\n        return None\n"
+   "    for p in [channel_properties, group_properties, file_properties]:\n        s = _get_channel_scaling(p)\n        if s is not None:\n            return s\n    return None\n"))
+V("ST1-benign-status-tested-per-scope-in-the-caller", "C13", None,
+  ("scaling.py", _ST_OLD, ""),
+  ("scaling.py", _GS_OLD, "    for p in [channel_properties, group_properties, file_properties]:\n        if p.get(\"NI_Scaling_Status\", \"unscaled\") == \"scaled\":\n            continue\n"
+   "        s = _get_channel_scaling(p)\n        if s is not None:\n            return s\n    return None\n"))
